@@ -192,46 +192,54 @@ func checkC06(r *core.Run, p *core.Program) {
 		r.Undecided("C06.time-kind", "builder.interfaceBuilder.BuildFromTime")
 	} else {
 		binfo := f.Pkg.TypesInfo
-		converts, guarded := false, false
+		// every use of the Go time obtained from AsGoTime must lie on paths whose conditions imply
+		// `value.Type == TimeTypeTimestamp` (decided by enumerating the truth values of the atoms of those conditions)
+		converts, guarded := false, true
+		var goTime types.Object
+		var defStmt ast.Node
 		ast.Inspect(f.Decl.Body, func(n ast.Node) bool {
-			ifs, ok := n.(*ast.IfStmt)
-			if !ok {
-				return true
-			}
-			usesGo := false
-			check := func(m ast.Node) {
-				inspectCalls(binfo, m, func(call *ast.CallExpr, c *types.Func) {
-					if c != nil && (c.Name() == "AsGoTime") {
-						usesGo = true
-					}
-				})
-			}
-			if ifs.Init != nil {
-				check(ifs.Init)
-			}
-			check(ifs.Cond)
-			if !usesGo {
-				return true
-			}
-			converts = true
-			ast.Inspect(ifs.Cond, func(m ast.Node) bool {
-				if be, ok := m.(*ast.BinaryExpr); ok && be.Op == token.EQL {
-					for _, side := range []ast.Expr{be.X, be.Y} {
-						if o := objOf(binfo, side); o != nil && o.Name() == "TimeTypeTimestamp" {
-							guarded = true
-						}
+			if as, ok := n.(*ast.AssignStmt); ok && len(as.Rhs) == 1 && len(as.Lhs) >= 1 {
+				if call, ok := stripParens(as.Rhs[0]).(*ast.CallExpr); ok {
+					if c := callee(binfo, call); c != nil && c.Name() == "AsGoTime" {
+						goTime, defStmt = objOf(binfo, as.Lhs[0]), as
+						converts = true
 					}
 				}
-				return true
-			})
+			}
 			return true
 		})
-		// an unconditional conversion (no if) is also a violation
-		if !converts {
-			inspectCalls(binfo, f.Decl.Body, func(call *ast.CallExpr, c *types.Func) {
-				if c != nil && c.Name() == "AsGoTime" {
-					converts = true
+		if converts && goTime == nil {
+			guarded = false
+		}
+		isTimestampAtom := func(e ast.Expr) bool {
+			be, ok := stripParens(e).(*ast.BinaryExpr)
+			if !ok || be.Op != token.EQL {
+				return false
+			}
+			for _, side := range []ast.Expr{be.X, be.Y} {
+				if o := objOf(binfo, side); o != nil && o.Name() == "TimeTypeTimestamp" {
+					return true
 				}
+			}
+			return false
+		}
+		if goTime != nil {
+			var stack []ast.Node
+			ast.Inspect(f.Decl.Body, func(n ast.Node) bool {
+				if n == nil {
+					stack = stack[:len(stack)-1]
+					return true
+				}
+				stack = append(stack, n)
+				id, ok := n.(*ast.Ident)
+				if !ok || binfo.ObjectOf(id) != goTime || (defStmt.Pos() <= id.Pos() && id.End() <= defStmt.End()) {
+					return true
+				}
+				conds, pols := pathConds(newAnalysis(p), binfo, f, id)
+				if !impliesAtom(binfo, f, conds, pols, isTimestampAtom) {
+					guarded = false
+				}
+				return true
 			})
 		}
 		r.Check("C06.time-kind", "(*builder.interfaceBuilder).BuildFromTime|Go time only for timestamps", f.Decl.Pos(), !converts || guarded,
@@ -340,4 +348,134 @@ func checkArraySwitchCoverage(r *core.Run, p *core.Program, rel, method string, 
 		r.Check(rule, rel+"."+method+"|"+req, sw.Pos(), handled[req] || defaultOK,
 			"arrays of type "+req+" are accepted by the validator but fall into the rejecting default of this switch: a valid document with such an array cannot be unmarshaled into an untyped value")
 	}
+}
+
+// impliesAtom: the conjunction of the path conditions (each with its polarity) can only hold when the
+// distinguished atom is true. Conditions are boolean combinations (&&, ||, !, parentheses) of atoms; a local
+// boolean that is defined once stands for its initialiser; every other atom is a free boolean. All truth
+// assignments with the distinguished atom false are enumerated.
+func impliesAtom(info *types.Info, f *fn, conds []ast.Expr, pols []bool, isAtom func(ast.Expr) bool) bool {
+	return impliesAtomValue(info, f, conds, pols, isAtom, true)
+}
+
+// impliesAtomValue: the path conditions can only hold when the distinguished atom has the value want.
+func impliesAtomValue(info *types.Info, f *fn, conds []ast.Expr, pols []bool, isAtom func(ast.Expr) bool, want bool) bool {
+	atoms := map[string]int{}
+	var resolve func(e ast.Expr, depth int) ast.Expr
+	resolve = func(e ast.Expr, depth int) ast.Expr {
+		e = stripParens(e)
+		if id, ok := e.(*ast.Ident); ok && depth < 4 {
+			if init := singleInit(info, f, info.ObjectOf(id)); init != nil {
+				if b, ok := info.TypeOf(init).Underlying().(*types.Basic); ok && b.Info()&types.IsBoolean != 0 {
+					return resolve(init, depth+1)
+				}
+			}
+		}
+		return e
+	}
+	var eval func(e ast.Expr, asg func(string, bool) bool) bool
+	eval = func(e ast.Expr, asg func(string, bool) bool) bool {
+		e = resolve(e, 0)
+		switch x := e.(type) {
+		case *ast.UnaryExpr:
+			if x.Op == token.NOT {
+				return !eval(x.X, asg)
+			}
+		case *ast.BinaryExpr:
+			switch x.Op {
+			case token.LAND:
+				return eval(x.X, asg) && eval(x.Y, asg)
+			case token.LOR:
+				return eval(x.X, asg) || eval(x.Y, asg)
+			case token.NEQ:
+				eq := &ast.BinaryExpr{X: x.X, Op: token.EQL, Y: x.Y}
+				return !asg(types.ExprString(eq), isAtom(eq))
+			}
+		}
+		return asg(types.ExprString(e), isAtom(e))
+	}
+	// collect atoms
+	collect := func(name string, special bool) bool {
+		if !special {
+			if _, ok := atoms[name]; !ok {
+				atoms[name] = len(atoms)
+			}
+		}
+		return false
+	}
+	for _, c := range conds {
+		eval(c, collect)
+	}
+	if len(atoms) > 12 {
+		return false
+	}
+	for mask := 0; mask < 1<<len(atoms); mask++ {
+		asg := func(name string, special bool) bool {
+			if special {
+				return !want // the distinguished atom has the other value
+			}
+			return mask&(1<<atoms[name]) != 0
+		}
+		all := true
+		for i, c := range conds {
+			if eval(c, asg) != pols[i] {
+				all = false
+				break
+			}
+		}
+		if all {
+			return false // reachable although the atom is false
+		}
+	}
+	return true
+}
+
+// pathConds collects the conditions under which target is reached inside f: for every enclosing if statement its
+// condition with the polarity of the branch taken, and for every enclosing block the negated conditions of the
+// preceding else-less if statements whose body always leaves (return / panic).
+func pathConds(a *analysis, info *types.Info, f *fn, target ast.Node) (conds []ast.Expr, pols []bool) {
+	var stack []ast.Node
+	found := false
+	ast.Inspect(f.Decl.Body, func(n ast.Node) bool {
+		if found {
+			return false
+		}
+		if n == nil {
+			stack = stack[:len(stack)-1]
+			return true
+		}
+		stack = append(stack, n)
+		if n != target {
+			return true
+		}
+		found = true
+		for i := 0; i+1 < len(stack); i++ {
+			switch x := stack[i].(type) {
+			case *ast.IfStmt:
+				switch stack[i+1] {
+				case ast.Node(x.Body):
+					conds, pols = append(conds, x.Cond), append(pols, true)
+				case x.Else:
+					conds, pols = append(conds, x.Cond), append(pols, false)
+				}
+			case *ast.BlockStmt:
+				for _, st := range x.List {
+					if ast.Node(st) == stack[i+1] {
+						break
+					}
+					if ifs, ok := st.(*ast.IfStmt); ok && ifs.Else == nil && len(ifs.Body.List) > 0 {
+						_, isRet := ifs.Body.List[len(ifs.Body.List)-1].(*ast.ReturnStmt)
+						if br, isBr := ifs.Body.List[len(ifs.Body.List)-1].(*ast.BranchStmt); isBr && (br.Tok == token.CONTINUE || br.Tok == token.BREAK) && br.Label == nil {
+							isRet = true // leaves the rest of this loop body
+						}
+						if isRet || a.alwaysPanics(info, ifs.Body.List) {
+							conds, pols = append(conds, ifs.Cond), append(pols, false)
+						}
+					}
+				}
+			}
+		}
+		return false
+	})
+	return conds, pols
 }
